@@ -121,10 +121,54 @@ func (c *c20) isolation(tape *kernel.Tape, n int) {
 	}
 	b := w.Net.NewBrowser("b1")
 	var sess *session
+	rpNode, _ := world.BuildRP(ctx, w, world.RPOptions{Client: "web", Secret: "secret-web", Host: "web.sim", Redirect: "https://web.sim/callback", Scopes: []string{oidc.ScopeOpenID},
+		PKCE: true, Cookies: true, KeySeed: 21, AuthStyle: oauth2.AuthStyleInHeader, SigAlgs: []string{string(w.SigAlg)}})
+	browsers := []*world.Browser{w.Net.NewBrowser("cb0"), w.Net.NewBrowser("cb1")}
 	steps(c.o, tape, n, func(i int, ch *kernel.Chooser) string {
 		c.step = i
 		var desc string
-		switch ch.Int(9) {
+		switch ch.Int(10) {
+		case 9: // two logins through one relying party's handler, interleaved by the scheduler: neither may see the other's PKCE challenge
+			if rpNode == nil {
+				desc = "concurrent logins: no relying party"
+				break
+			}
+			sched := kernel.NewSched(w.Tape, fmt.Sprintf("pair:%d", i), 100)
+			rpNode.ParamHook = func() { sched.Park(sched.Current, "rp.urlparam", nil) }
+			resps := make([]*world.Resp, 2)
+			for k := 0; k < 2; k++ {
+				k := k
+				name := fmt.Sprintf("t%d", k)
+				go func() {
+					if sched.Park(name, "start", nil) == "go" {
+						resps[k] = browsers[k].Get("https://web.sim/login")
+					}
+				}()
+			}
+			sched.Run(func(bool) []kernel.Event {
+				var evs []kernel.Event
+				for _, p := range sched.ParkedTasks() {
+					p := p
+					evs = append(evs, kernel.Event{Name: "wake:" + p.Task + "@" + p.Point, Drain: true, Apply: func() { sched.Release(p.Task, "go") }})
+				}
+				return evs
+			}, nil)
+			rpNode.ParamHook = nil
+			c.o.Probe("scheduled-concurrent-logins")
+			for k, r := range resps {
+				if r == nil || r.Status != 302 {
+					continue
+				}
+				u, err := url.Parse(r.Location)
+				ck := findCookie(r.Header, "pkce")
+				if err != nil || ck == nil {
+					continue
+				}
+				if v, ok := decodeCookie(rpNode, "pkce", ck.Value, 0); !ok || u.Query().Get("code_challenge") != world.S256(v) {
+					c.viol("instance-not-isolated", "rp.AuthURLHandler/concurrent-logins", "login %d of two concurrent logins on one relying party got a code_challenge that does not belong to its own verifier cookie (schedule %v)", k, sched.Trace)
+				}
+			}
+			desc = fmt.Sprintf("two concurrent logins through one RP handler %v", sched.Trace)
 		case 0: // a provider with custom endpoints
 			name := []string{"token", "auth", "userinfo", "keys", "all"}[ch.Int(5)]
 			e := op.NewEndpoint(fmt.Sprintf("custom%d/%s", i, name))
@@ -364,6 +408,34 @@ func raceMix(w *world.World, tape *kernel.Tape, mix string) {
 				}
 			})
 		}
+	case "rp-handlers":
+		// several browsers log in through one relying party's HTTP handlers at the same time
+		node, err := world.BuildRP(ctx, w, world.RPOptions{Client: "web", Secret: "secret-web", Host: "web.sim", Redirect: "https://web.sim/callback", Scopes: []string{oidc.ScopeOpenID},
+			PKCE: ch.Bool(2, 3), Cookies: true, KeySeed: 9, AuthStyle: oauth2.AuthStyleInHeader, SigAlgs: []string{string(w.SigAlg)}})
+		if err != nil {
+			return
+		}
+		_ = node
+		n := ch.Range(3, 6)
+		for i := 0; i < n; i++ {
+			br := w.Net.NewBrowser(fmt.Sprintf("rb%d", i))
+			user := []string{"alice", "bob"}[i%2]
+			add(func() {
+				r := br.Get("https://web.sim/login")
+				if r.Status != 302 {
+					return
+				}
+				ar := br.Get(r.Location)
+				if ar.Status != 302 || !strings.Contains(ar.Location, "/login?") {
+					return
+				}
+				lu, _ := url.Parse(ar.Location)
+				cb := w.LoginAndCallback(br, lu.Query().Get("authRequestID"), user, userPass[user])
+				if cb.Status == 302 {
+					br.Get(cb.Location)
+				}
+			})
+		}
 	case "construct":
 		n := ch.Range(3, 6)
 		for i := 0; i < n; i++ {
@@ -397,7 +469,7 @@ func raceMix(w *world.World, tape *kernel.Tape, mix string) {
 	wg.Wait()
 }
 
-var raceMixes = []string{"provider", "rp", "rs-keyset", "construct"}
+var raceMixes = []string{"provider", "rp", "rp-handlers", "rs-keyset", "construct"}
 
 func RunC20(t *testing.T, spec kernel.Spec) *kernel.Outcome {
 	out := kernel.NewOutcome(spec)
